@@ -7,6 +7,7 @@ import KinModel.BodyReq
 import KinModel.Props.C06
 import KinModel.Gen.C06BodyRead
 import KinModel.Gen.C06DefaultGuard
+import KinModel.Gen.C06VisitOpts
 namespace KinModel.Body
 
 /-! ## the guard of the read is the source's -/
@@ -111,6 +112,39 @@ theorem weakened_guard_differs :
       ⟨true, false, true, false, false, false, true, true, true⟩ = some true ∧
     evalDRows dRowsSrc (fun _ => none) ⟨true, false, true, false, false, false, true, true, true⟩ = some false := by
   decide
+
+/-! ## from `Options` to the settings of the visit (option combinations) -/
+
+/-- the regenerated option wiring is the one the model evaluates (nothing unreadable: `unrecognised` ≠ any row of
+`optRowsSrc`) -/
+theorem visitOpts_is_source :
+    Gen.c06VisitOpts.map (fun r => ((match r.1 with
+      | .always => OptCond.always | .ifOpt o => .ifOpt o | .ifNotOpt o => .ifNotOpt o | .ifSet o => .ifSet o
+      | .visit => .visit | .unrecognised _ => .unrecognised), r.2)) = optRowsSrc := by
+  decide
+
+/-- **every combination of the options** gives exactly these settings: always a request-side visit, never a
+response-side one, `DefaultsSet` iff defaults are not skipped, read-only validation disabled iff
+ExcludeReadOnlyValidations, write-only validation never disabled, MultiErrors iff MultiError — the parameters
+`exro` / `ds` of `validateRequestBodyD` are these and nothing else -/
+theorem options_to_settings (o : FilterOpts) :
+    settingsOf (optsPassed optRowsSrc o) =
+      { asreq := true, asrep := false, defaultsSet := !o.skipDefaults, roDisabled := o.exro, woDisabled := false, multi := o.multi } := by
+  obtain ⟨a, b, c, d, e, f⟩ := o
+  cases a <;> cases b <;> cases c <;> cases d <;> cases e <;> cases f <;> decide
+
+/-- options → settings → guard → model: under the source's option wiring and the source's injection guard a default
+is written exactly when defaults are not skipped, the property is absent and `dfltFor` (with `exro` =
+ExcludeReadOnlyValidations) yields one -/
+theorem options_decide_injection (o : FilterOpts) (ab : Bool) (p : RS) :
+    evalDRows dRowsSrc (fun _ => none) (envOf (settingsOf (optsPassed optRowsSrc o)) ab p) =
+      some (!o.skipDefaults && (ab && (dfltFor o.exro p).isSome)) := by
+  rw [options_to_settings]
+  cases hs : o.skipDefaults
+  · have := inject_guard_is_dfltFor o.exro false ab p
+    simpa [envOf, reqEnv] using this
+  · unfold envOf
+    cases ab <;> cases p.ro <;> cases p.wo <;> cases o.exro <;> cases p.dflt.isSome <;> rfl
 
 /-! ## the verdict over request shapes -/
 
